@@ -66,4 +66,6 @@ MUTANTS = [
     m("c18-miss-not-stored-readonly", "C18", "R4", ST, "                state._cache[key] = method(self, state)\n", "                val = method(self, state)\n                if state._read_only:\n                    return val\n                state._cache[key] = val\n", key="miss-not-stored"),
     m("c18-twin-miss-stored-via-local", "C18", None, ST, "                state._cache[key] = method(self, state)\n", "                val = method(self, state)\n                state._cache[key] = val\n", twin=True),
     m("c18-metric-bypasses-wrapper", "C18", "R2", S, "        return self._metric_matrix_class(\n            self.metric_func(state),\n            size=state.pos.shape[0],", "        return self._metric_matrix_class(\n            self._metric_func(state.pos),\n            size=state.pos.shape[0],", key="bypasses"),
+    m("c18-aux-padded-with-none-loop", "C18", "R4", "states.py", '                if isinstance(vals, tuple):\n                    for k, v in zip(keys, vals, strict=False):\n                        state._cache[k] = v\n                else:\n                    state._cache[prim_key] = vals\n', '                if not isinstance(vals, tuple):\n                    vals = (vals,)\n                for i, k in enumerate(keys):\n                    state._cache[k] = vals[i] if i < len(vals) else None\n'),
+    m("c18-twin-aux-store-enumerate", "C18", None, "states.py", '                if isinstance(vals, tuple):\n                    for k, v in zip(keys, vals, strict=False):\n                        state._cache[k] = v\n                else:\n                    state._cache[prim_key] = vals\n', '                if isinstance(vals, tuple):\n                    for i, v in enumerate(vals[: len(keys)]):\n                        state._cache[keys[i]] = v\n                else:\n                    state._cache[prim_key] = vals\n', twin=True),
 ]
